@@ -1,12 +1,12 @@
 (* C10  Legal set-firings, superstables and parking functions match their definitions.
    General theorems: legality, superstability (the enumeration of all subsets is complete and agrees with Dhar's burn), the partial order,
    the parking-function generator; for EVERY n the superstables of K_(n+1) are exactly the parking functions of length n shifted down by one, and the
-   sorted form of the parking predicate (as implemented) is the counting form (Link/ParkingLink.v). The two classical counting identities
-   (matrix-tree theorem, (n+1)^(n-1)) are proved on the stated bounded domains only, by kernel computation over the complete finite domain
-   (names end in _bounded). *)
+   sorted form of the parking predicate (as implemented) is the counting form (Link/ParkingLink.v); the generator returns (n+1)^(n-1) distinct
+   sequences for every n (Link/ParkingCount.v). The matrix-tree theorem for general multigraphs is proved on the stated bounded domain only, by
+   kernel computation over the complete finite domain (name ends in _bounded); for complete graphs the count is proved for every n. *)
 From Coq Require Import ZArith List Bool.
 Import ListNotations.
-From CF Require Import ZSum ListAux Defs Core Machines Config ConfigLink BoundsLink ParkingLink PyLib Translated TranslatedLink.
+From CF Require Import ZSum ListAux Defs Core Machines Config ConfigLink BoundsLink ParkingLink ParkingCount PyLib Translated TranslatedLink.
 Open Scope Z_scope.
 
 Theorem C10_legal : forall g, wfb g = true -> forall D S, (forall v, In v S -> In v (Vg g)) ->
@@ -49,6 +49,16 @@ Print Assumptions C10_superstables_of_Kn_are_parking_functions.
 Theorem C10_parking_predicate_forms_agree : forall a, a <> [] -> is_parking a = is_parking_count a.
 Proof. exact parking_forms_agree. Qed.
 Print Assumptions C10_parking_predicate_forms_agree.
+
+(* the generator returns exactly (n+1)^(n-1) sequences, none twice, for EVERY n (Pollak's circular argument / the cycle lemma, Link/ParkingCount.v);
+   with C10_generate_parking these are exactly the parking functions, so there are (n+1)^(n-1) of them *)
+Theorem C10_parking_count : forall n, Z.of_nat (length (generate_parking n)) = parking_count n /\ NoDup (generate_parking n).
+Proof. intros n. split; [apply generate_parking_count|apply generate_parking_nodup]. Qed.
+Print Assumptions C10_parking_count.
+(* hence K_(n+1) has exactly (n+1)^(n-1) superstable configurations w.r.t. sink 0 (Cayley's number of spanning trees), n = k + 1 *)
+Theorem C10_superstable_count_complete_graph : forall k, count_superstables (complete_graph (S (S k))) 0%nat = Z.of_nat (S (S k)) ^ Z.of_nat k.
+Proof. exact Kn_superstable_count. Qed.
+Print Assumptions C10_superstable_count_complete_graph.
 
 (* ---- tie to the source text: the functions translated from /repo's current CFCombinatorics.py (Translated.v, regenerated on every run) are
    the model functions used above ---- *)
